@@ -38,4 +38,7 @@ def pyMin {α : Type} [LT α] [DecidableLT α] (a b : α) : α := if b < a then 
 /-- Python `max(a, b)`: the first of the largest -/
 def pyMax {α : Type} [LT α] [DecidableLT α] (a b : α) : α := if a < b then b else a
 
+/-- `math.ceil(a / b)` for natural numbers (sizes and block sizes; the float quotient is exact below 2^53) -/
+def pyCeilDiv (a b : Nat) : Nat := (a + b - 1) / b
+
 end Arim.Src
